@@ -61,7 +61,7 @@ def check(run, repo):
     for (sd, rd), (rs, ps, ts), space, fmt in itertools.product(delims, stoichs, (False, True), fmts):
         if fmt == '.3f' and not any(isinstance(x, Fr) for x in rs + ps):
             continue
-        I = Interp(repo, max_depth=12)
+        I = Interp(repo)
         names = [('r%d' % i, 1 + 3 * i) for i in range(len(rs))] + [('p%d' % i, 2 + i) for i in range(len(ps))] + \
             [('t%d' % i, 6) for i in range(len(ts or []))]
         sp = named_species(I, names)
@@ -123,7 +123,7 @@ def check(run, repo):
     run.floor('print/parse cases', n, 60)
 
     # ---- parsing: repeated species, omitted/decimal/integer coefficients, blanks, unknown species ----------
-    I = Interp(repo, max_depth=12)
+    I = Interp(repo)
     sp = named_species(I, [('A', 2), ('B', 3), ('TS', 4)])
     kA, kB, kT = list(sp)
     A, B, TSn = (SegStr.field(k, I.sym_strings[k][0], 'text') for k in (kA, kB, kT))
@@ -182,7 +182,7 @@ def balance(run, repo, ci):
     owner, fn = repo.find_method(ci, 'check_element_balance')
     for case, ts_mode in itertools.product(('balanced', 'products off by one', 'element missing in products'),
                                            (None, 'balanced', 'unbalanced')):
-        I = Interp(repo, max_depth=12)
+        I = Interp(repo)
         # the coefficients and compositions are generic numbers: totals that are not identically equal are unequal
         I.generic_point = True
         D = I.D
